@@ -43,20 +43,24 @@ keys and is not bound by a for-loop layer of the surrounding context is invisibl
 an isolated (or `only`) component is rendered with — whatever else the surrounding context holds,
 at any depth of layers. -/
 theorem isolated_copy_hides (ctx : Ctx) (x : Str)
-    (hx1 : x ≠ compKey) (hx2 : startsWith injectPrefix x = false) (hx3 : x ≠ permKey)
+    (hx1 : x ≠ compKey) (hx2 : startsWith injectPrefix x = false) (hx3 : x ≠ permKey) (hx4 : x ≠ rcRootKey)
     (h0 : hasL forloopKey (ctx.headD []) = false)
     (hloop : ∀ l ∈ ctx, hasL forloopKey l = true → lookupL x l = Option.none) :
     ctxGet (isolatedCopy ctx) x = Option.none := by
   unfold isolatedCopy
   rw [ctxGet_rebase _ _ (Ne.symm hx3)]
   rw [ctxGet_fold_setTop]
-  · have hbase : ctxGet (match forLayerToCopy ctx with | some l => [[], l] | Option.none => [[]]) x = Option.none := by
+  · have hl0 : lookupL x (if hasRootRc ctx then [(rcRootKey, Val.none)] else []) = Option.none := by
+      split <;> simp [lookupL, Ne.symm hx4]
+    have hbase : ctxGet (match forLayerToCopy ctx with
+        | some l => [(if hasRootRc ctx then [(rcRootKey, Val.none)] else []), l]
+        | Option.none => [(if hasRootRc ctx then [(rcRootKey, Val.none)] else [])]) x = Option.none := by
       cases hf : forLayerToCopy ctx with
-      | none => simp [ctxGet, lookupL]
+      | none => simp [ctxGet, hl0]
       | some l =>
         obtain ⟨hm, hp⟩ := forLayerToCopy_mem ctx l h0 hf
         have := hloop l hm hp
-        simp [ctxGet, lookupL, this]
+        simp [ctxGet, hl0, this]
     cases hc : ctxGet ctx compKey with
     | none => exact hbase
     | some v =>
@@ -78,9 +82,9 @@ for-loop layer is copied into the isolated context, so the loop variable of a `{
 `only` component is visible inside it although it was never passed. -/
 theorem not_isolated_hides_everything :
     ¬ (∀ (ctx : Ctx) (x : Str), x ≠ compKey → startsWith injectPrefix x = false → x ≠ permKey →
-        ctxGet (isolatedCopy ctx) x = Option.none) := by
+        x ≠ rcRootKey → ctxGet (isolatedCopy ctx) x = Option.none) := by
   intro h
-  have := h [[], forLayer [[]] "x".toList 0 (.str "leak".toList)] "x".toList (by decide) (by decide) (by decide)
+  have := h [[], forLayer [[]] "x".toList 0 (.str "leak".toList)] "x".toList (by decide) (by decide) (by decide) (by decide)
   revert this
   decide
 
@@ -93,7 +97,7 @@ def C03_full : Prop :=
     (∀ nd ∈ page, match nd with
       | .comp _ kw _ _ body => body = [] ∧ ∀ kv ∈ kw, ∃ s, kv.2 = Expr.lit s
       | _ => False) →
-    ((renderNodes env fuel page (rebase [[], vars])).run.run {}).1 =
-      ((renderNodes env fuel page (rebase [[], vars'])).run.run {}).1
+    ((renderNodes env fuel page (rootCtx vars)).run.run {}).1 =
+      ((renderNodes env fuel page (rootCtx vars')).run.run {}).1
 
 end Djc.Props.C03
